@@ -13,10 +13,10 @@
 
 #define MAXF 48
 
-enum { CL_W32, CL_STRADDLE, CL_EXACT, CL_SHORT, CL_SEG, CL_BITOFF, CL_RDOVER, CL_EMPTYSEG, CL_W32EMPTY };
+enum { CL_W32, CL_STRADDLE, CL_EXACT, CL_SHORT, CL_SEG, CL_BITOFF, CL_RDOVER, CL_EMPTYSEG, CL_W32EMPTY, CL_OPAQUE, CL_EXTRACT_BITS };
 static const char *const class_names[] = {
     "field_32bit", "field_straddles_cache", "buffer_exactly_full", "buffer_too_small",
-    "read_segmented", "read_bit_offset", "read_past_end", "empty_segment", "w32_on_empty_cache", NULL };
+    "read_segmented", "read_bit_offset", "read_past_end", "empty_segment", "w32_on_empty_cache", "read_from_plain_memory", "extract_bits_into_writer", NULL };
 
 static void ref_pack(const uint8_t *w, const uint32_t *v, int n, uint8_t *out, size_t outsz)
 {
@@ -257,6 +257,73 @@ static int run(const uint8_t *tp_, size_t len, struct vp_report *rep, unsigned f
                 }
                 ubuf_block_stream_clean(&s);
             }
+        }
+        /* ---- the same octets read from plain memory (ubuf_block_stream_init_from_opaque): fields from bit 0 of an exact-size
+         * copy (its end is an ASan red zone), then past the end: zeros and the overflow indication ---- */
+        if (ret == 0 && total > 0 && bitoff == 0) {
+            size_t olen = streamlen - lead;
+            uint8_t *mem = malloc(olen);
+            memcpy(mem, src + lead, olen);
+            struct ubuf_block_stream s;
+            ubuf_block_stream_init_from_opaque(&s, mem, olen);
+            rep->classes |= 1u << CL_OPAQUE;
+            for (int i = 0; i < n && ret == 0; i++) {
+                uint32_t g = stream_read(&s, w[i]);
+                if (s.overflow) ret = vp_fail(rep, "C18/opaque/spurious-overflow", "opaque reader: field %d overflow inside the data", i);
+                else if (g != v[i]) ret = vp_fail(rep, "C18/opaque/value", "opaque reader: field %d (%u bits) read 0x%x, written 0x%x", i, w[i], g, v[i]);
+            }
+            if (ret == 0) {
+                size_t padbits = olen * 8 - total;
+                if (padbits) stream_read(&s, padbits);
+                if (s.overflow) ret = vp_fail(rep, "C18/opaque/spurious-overflow", "opaque reader: pad bits flagged overflow");
+                else {
+                    uint32_t g = stream_read(&s, 1 + (n % 24));
+                    if (!s.overflow) ret = vp_fail(rep, "C18/opaque/no-overflow", "opaque reader: read past the end of the memory not flagged");
+                    else if (g != 0) ret = vp_fail(rep, "C18/opaque/nonzero-past-end", "opaque reader: read past the end returned 0x%x", g);
+                }
+            }
+            ubuf_block_stream_clean(&s);
+            free(mem);
+        }
+        /* ---- ubuf_block_extract_bits: a window of the segmented block copied into a bit writer that already holds k bits;
+         * the writer's output is those k bits followed by exactly the octets of the window; too small a buffer => overflow,
+         * nothing written outside it (exact-size allocation) ---- */
+        if (ret == 0 && ubuf != NULL && streamlen > 0) {
+            int k = n ? (int)(v[0] % 8) : 0;                    /* bits already in the writer */
+            int off = (int)(lead % (streamlen));                 /* window inside the block */
+            int wsz = (int)(streamlen - off);
+            if (wsz > 64) wsz = 64;
+            bool tight = n > 1 && (v[1] & 1);                   /* one octet short */
+            size_t need = (size_t)(k + 8 * wsz + 7) / 8;
+            size_t cap = tight && need > 0 ? need - 1 : need;
+            uint8_t *out = malloc(cap ? cap : 1);
+            struct ubits bw;
+            ubits_init(&bw, out, cap, UBITS_WRITE);
+            if (k) ubits_put(&bw, k, 0x55 & ((1u << k) - 1));
+            int e = ubuf_block_extract_bits(ubuf, off, wsz, &bw);
+            uint8_t *end;
+            int ce = ubits_clean(&bw, &end);
+            rep->classes |= 1u << CL_EXTRACT_BITS;
+            if (!ubase_check(e)) ret = vp_fail(rep, "C18/extract-bits/refused", "ubuf_block_extract_bits(offset %d, size %d) failed (%d) on a block of %zu octets", off, wsz, e, streamlen);
+            else if (tight && need > 0) {
+                if (ubase_check(ce)) ret = vp_fail(rep, "C18/extract-bits/no-overflow", "%zu octets needed, %zu given: the writer did not report the overflow", need, cap);
+            } else if (!ubase_check(ce)) ret = vp_fail(rep, "C18/extract-bits/spurious-overflow", "the writer reports an overflow with exactly enough room (%zu octets)", need);
+            else if ((size_t)(end - out) != need) ret = vp_fail(rep, "C18/extract-bits/count", "%zu octets produced, %zu expected", (size_t)(end - out), need);
+            else {
+                /* reference: k bits of 0x55.. then the window, MSB first, zero padding */
+                for (size_t bi = 0; bi < need && ret == 0; bi++) {
+                    unsigned acc = 0;
+                    for (int b = 0; b < 8; b++) {
+                        size_t pos = bi * 8 + b; unsigned bit;
+                        if (pos < (size_t)k) bit = ((0x55u & ((1u << k) - 1)) >> (k - 1 - pos)) & 1;
+                        else if (pos < (size_t)k + 8 * (size_t)wsz) { size_t q = pos - k; bit = (src[off + q / 8] >> (7 - q % 8)) & 1; }
+                        else bit = 0;
+                        acc = acc << 1 | bit;
+                    }
+                    if (out[bi] != acc) ret = vp_fail(rep, "C18/extract-bits/bytes", "octet %zu of the writer is 0x%02x, expected 0x%02x (k=%d offset=%d size=%d)", bi, out[bi], acc, k, off, wsz);
+                }
+            }
+            free(out);
         }
         if (ubuf) ubuf_free(ubuf);
         free(src);
